@@ -359,7 +359,7 @@ func drawOps(t *rapid.T, timed bool) []Op {
 		k := rapid.SampledFrom(kinds).Draw(t, "op")
 		switch k {
 		case "ticket", "cached":
-			ops = append(ops, Op{K: k, SPN: rapid.SampledFrom([]int{0, 0, 0, 1, 2, 3, 3, 4}).Draw(t, "spn")})
+			ops = append(ops, Op{K: k, SPN: rapid.SampledFrom([]int{0, 0, 0, 1, 2, 3, 3, 4, 5, 5}).Draw(t, "spn")})
 		case "wait":
 			ops = append(ops, Op{K: k, Ms: rapid.SampledFrom([]int{300, 1200, 2600, 3400}).Draw(t, "ms")})
 		default:
@@ -507,6 +507,13 @@ func TestProp(t *testing.T) {
 			}
 		}
 	}
+	// a small clock skew: a ticket requested well after the login (the TGS reply's authtime is that of the login, its
+	// starttime is fresh), and a second spelling of a service name in other letter case
+	for k := 0; k < r.N(4, 12); k++ {
+		timedCases = append(timedCases, Case{Spec: Spec{Seed: r.Seed()*7919 + uint64(k), Cred: []string{"keytab", "password"}[k%2], ETypes: []int32{ref.ETypes[k%6]}, Preauth: []string{"none", "required"}[(k/2)%2],
+			Via: "referral", KDCs: 1, ClockSkewS: 3, Hops: k % 2, RenewLife: []string{"", "10m"}[(k/2)%2]},
+			Ops: []Op{{K: "login"}, {K: "ticket", SPN: 0}, {K: "ticket", SPN: 5}, {K: "wait", Ms: 3400}, {K: "ticket", SPN: 1}, {K: "cached", SPN: 0}, {K: "ticket", SPN: 5}, {K: "ticket", SPN: 0}}})
+	}
 	run("timed", timedCases, 55)
 	// enumeration: every hop count x via x pre-auth policy x credential kind with a fixed probing history
 	var enum []Case
@@ -524,7 +531,7 @@ func TestProp(t *testing.T) {
 						et := []int32{ref.ETypes[(hops+pi+ci)%6], ref.ETypes[(hops+pi+ci+2)%6]}
 						enum = append(enum, Case{Spec: Spec{Seed: r.Seed()*131 + uint64(len(enum)), Cred: cred, ETypes: et, Preauth: pre, Salted: salted, Hops: hops, Via: via,
 							Loop: hops >= 1 && hops <= 3 && via == "referral", Params: (hops+pi)%2 == 0, Fwd: hops%2 == 0, Canon: pi%2 == 0, NoAddr: ci == 0, RenewLife: []string{"", "10m", "7d"}[(hops+pi)%3], TicketLife: []string{"", "10m", "1h"}[(hops+ci)%3], KDCs: 1 + hops%3},
-							Ops: []Op{{K: "login"}, {K: "ticket", SPN: 0}, {K: "ticket", SPN: 0}, {K: "ticket", SPN: 3}, {K: "ticket", SPN: 1}, {K: "cached", SPN: 0}, {K: "ticket", SPN: 4}, {K: "ticket", SPN: 2}}})
+							Ops: []Op{{K: "login"}, {K: "ticket", SPN: 0}, {K: "ticket", SPN: 0}, {K: "ticket", SPN: 5}, {K: "ticket", SPN: 3}, {K: "ticket", SPN: 1}, {K: "cached", SPN: 0}, {K: "cached", SPN: 5}, {K: "ticket", SPN: 4}, {K: "ticket", SPN: 2}}})
 					}
 				}
 			}
